@@ -34,6 +34,8 @@ struct Cfg {
     real_stack: bool,
     /// "kind:rule" pairs whose quick-length harness runs in the thorough tier only (too dear for every change)
     thorough_only: Vec<String>,
+    /// `//! skip_body_check: WHITESPACE COMMENT` — also check the SKIP constant inside those rules' bodies
+    skip_body_check: Vec<String>,
     /// "kind:rule" pairs not emitted at all (e.g. a token-children harness for a rule that has no child tokens)
     skip_kinds: Vec<String>,
     /// `//! tier: thorough` — every harness of this grammar runs in the thorough tier only
@@ -41,7 +43,7 @@ struct Cfg {
 }
 
 fn header(text: &str) -> Cfg {
-    let mut c = Cfg { alphabet: "abx".into(), n: (3, 4), entries: None, kinds: vec!["c01".into()], variants: vec![], unwind: None, known: vec![], kinds_given: false, nparse: None, real_stack: false, thorough_only: vec![], skip_kinds: vec![], all_thorough: false };
+    let mut c = Cfg { alphabet: "abx".into(), n: (3, 4), entries: None, kinds: vec!["c01".into()], variants: vec![], unwind: None, known: vec![], kinds_given: false, nparse: None, real_stack: false, thorough_only: vec![], skip_kinds: vec![], all_thorough: false, skip_body_check: vec![] };
     for l in text.lines() {
         let l = l.trim();
         if let Some(r) = l.strip_prefix("//! alphabet:") {
@@ -50,6 +52,8 @@ fn header(text: &str) -> Cfg {
         } else if let Some(r) = l.strip_prefix("//! n:") {
             let v: Vec<usize> = r.split_whitespace().map(|x| x.parse().unwrap()).collect();
             c.n = (v[0], *v.get(1).unwrap_or(&v[0]));
+        } else if let Some(r) = l.strip_prefix("//! skip_body_check:") {
+            c.skip_body_check = r.split_whitespace().map(String::from).collect();
         } else if let Some(r) = l.strip_prefix("//! tier:") {
             c.all_thorough = r.trim() == "thorough";
         } else if let Some(r) = l.strip_prefix("//! skip_kinds:") {
@@ -429,9 +433,13 @@ fn generate(name: &str, text: &str) -> String {
     // ---- harnesses
     writeln!(o, "harnesses! {{").unwrap();
     if skip_check {
-        writeln!(o, "    fn c07_g_{g}_skiptype() [] : \"Q|corpus grammar {g}: the generated implicit-skip type (generics::Skipped) instantiates WHITESPACE/COMMENT with INHERITED = 0 (matched atomically), in every derive option variant\" {{", g = name).unwrap();
+        writeln!(o, "    fn c07_g_{g}_skiptype() [] : \"Q|corpus grammar {g}: the generated implicit-skip type (generics::Skipped) instantiates WHITESPACE/COMMENT with INHERITED = 0 (matched atomically) and, where checked, their own bodies carry SKIP = 0, in every derive option variant\" {{", g = name).unwrap();
         for v in &variants {
             writeln!(o, "        crate::grel::skip_type_is_atomic::<typed_{}::generics::Skipped<'static>>();", v).unwrap();
+            for r in &cfg.skip_body_check {
+                writeln!(o, "        crate::grel::skip_body_is_atomic::<<typed_{v}::rules::{r}<'static, 0> as pest_typed::RuleStruct<'static, typed_{v}::Rule>>::Inner>();", v = v, r = r).unwrap();
+                writeln!(o, "        crate::grel::skip_body_is_atomic::<<typed_{v}::rules::{r}<'static, 1> as pest_typed::RuleStruct<'static, typed_{v}::Rule>>::Inner>();", v = v, r = r).unwrap();
+            }
         }
         writeln!(o, "    }}").unwrap();
     }
